@@ -667,6 +667,10 @@ def run(chk):
     batcher.channel_impls(chk, P, "C11.channel")
     # the size-limit decision reads the batch's byte count: after a failed write the retried batch must report its full size again
     c10.rewind_rule(chk, P, "C11.R1b")
+    c10.std_adapter_rule(chk, P, "C11.R12")
     common.builder_rules(chk, P, "C11", lambda b: b.key.startswith("emit_file::FileSetBuilder::"), 7)
     common.arg_agreement_rule(chk, P, "C11", [("emit_file", None)], 5)
+    common.config_wiring_rule(chk, P, "C11.R11:configuration-reaches-worker", "every builder option (roll_by, reuse_files, max_files, max_file_size_bytes, "
+                              "separator) reaches the worker / the emitter unchanged under its own name",
+                              ["emit_file::FileSetBuilder::spawn_inner"], 6)
     return chk
